@@ -566,6 +566,22 @@ pub fn put_ef_length(m: &mut [u8], at: usize, length: u16) {
     m[at + 2] = l[0];
     m[at + 3] = l[1];
 }
+/// `stubs::symbolic_rng()` without its 8-iteration loop (keeps harness unwind bounds small).
+#[cfg(kani)]
+pub fn any_rng() {
+    unsafe {
+        stubs::RNG_TAPE[0] = kani::any();
+        stubs::RNG_TAPE[1] = kani::any();
+        stubs::RNG_TAPE[2] = kani::any();
+        stubs::RNG_TAPE[3] = kani::any();
+        stubs::RNG_TAPE[4] = kani::any();
+        stubs::RNG_TAPE[5] = kani::any();
+        stubs::RNG_TAPE[6] = kani::any();
+        stubs::RNG_TAPE[7] = kani::any();
+        stubs::RNG_IDX = 0;
+    }
+}
+
 /// Write the 23-byte draft identification at `at` without a loop (keeps harness unwind bounds small).
 pub fn put_draft_id(m: &mut [u8], at: usize) {
     const D: &[u8; 23] = b"draft-ietf-ntp-ntpv5-09";
